@@ -85,7 +85,7 @@ static void on_cb(int tag, int id) {
   k = cbcount++;
   if (k == CAP) {
     int j;
-    uv_stop(&loop);
+    uv_stop(&loop); printf("x ");
     for (j = 0; j < nh; j++)
       if (usable(j) && !H[j]->closing) {
         extern void close_cb(uv_handle_t*);
@@ -179,7 +179,7 @@ static void do_ops(char* ops, int in_cb) {
         printf("r%d ", r);
       }
       break;
-    case 'X': uv_stop(&loop); break;
+    case 'X': uv_stop(&loop); printf("x "); break;
     case 'A': if (sscanf(tok + 1, "%" SCNu64, &a) == 1) vclock_ms += a; break;
     case 'L': printf("l%d ", uv_loop_alive(&loop) ? 1 : 0); break;
     case 'O': {
@@ -192,7 +192,7 @@ static void do_ops(char* ops, int in_cb) {
       break; }
     case 'B': printf("b%d ", uv_backend_timeout(&loop)); break;
     case 'R':
-      if (!in_cb && sscanf(tok + 1, "%d", &c) == 1 && printf("g%d ", c))
+      if (!in_cb && sscanf(tok + 1, "%d", &c) == 1 && printf("g%d,%d ", c, uv_loop_alive(&loop) ? 1 : 0))
         printf("u%d ", uv_run(&loop, c == 0 ? UV_RUN_DEFAULT : c == 1 ? UV_RUN_ONCE : UV_RUN_NOWAIT) ? 1 : 0);
       break;
     case 'Z':
